@@ -214,7 +214,10 @@ func (w *World) callbacks() gkvlite.StoreCallbacks {
 			if Reversed(name, true) {
 				return reverseCompare
 			}
-			return bytes.Compare
+			if name == "a" {
+				return bytes.Compare
+			}
+			return nil // "no opinion": the documented default (bytes.Compare) applies
 		}
 	}
 	return cb
